@@ -55,7 +55,8 @@ def checker(sc, meta, log, tr):
                     out.append({"kind": "a bootstrapped() caller was never told", "tag": tag, "called": t0, "tau": meta["tau"]})
             elif not booted[tag][1]:
                 out.append({"kind": "bootstrapped() resolved false", "tag": tag})
-            elif booted[tag][0] > max(limit, t0):
+            elif booted[tag][0] > max(meta["tau"], t0) + 11 * MIN:
+                # (a caller arriving while a periodic re-bootstrap is under way waits for that round: bounded by the same 11 min)
                 out.append({"kind": "bootstrapped() resolved later than 11 min after a contact became responsive",
                             "tag": tag, "at": booted[tag][0], "tau": meta["tau"]})
     return out
